@@ -47,12 +47,15 @@ C['C03']=dict(mutants=[
  m('components-prealloc',SCDX,'\tcomponents := []cdx.Component{}\n','\tcomponents := make([]cdx.Component, 0, len(s.componentsDict))\n'),
 ])
 C['C04']=dict(mutants=[
+ m('sniffer-nil-map',SNIFF,'\tstates := make(sniffStates, len(sniffFormats))\n','\tvar states sniffStates\n','map-write-initialised'),
  m('drop-license-nil-guard',UCDX,'\t\tlicenseID := ""\n\t\tif lc.License != nil {\n\t\t\tlicenseID = lc.License.ID\n\t\t}\n\t\tif lc.Expression == "" && licenseID == "" {\n\t\t\tcontinue\n\t\t}\n\n\t\tif lc.Expression != "" {','\t\tlicenseID := lc.License.ID\n\t\tif lc.Expression == "" && licenseID == "" {\n\t\t\tcontinue\n\t\t}\n\n\t\tif lc.Expression != "" {','absent-part-guard'),
  m('drop-file-nil-guard',U23,'\t\tif f == nil {\n\t\t\tcontinue\n\t\t}\n',' ','absent-part-guard'),
  m('creationinfo-unguarded',U23,'\tif spdxDoc.CreationInfo != nil {\n','\tif spdxDoc != nil {\n','absent-part-guard'),
  m('stale-error',UCDX,'\tmd := &sbom.Metadata{\n','\tif bom.Version < 0 {\n\t\treturn nil, err\n\t}\n\tmd := &sbom.Metadata{\n','result-discipline'),
  m('fatal-on-bad-date',U23,'\t\tlogrus.Warnf("invalid time format in %s", date)\n','\t\tlogrus.Fatalf("invalid time format in %s", date)\n','no-process-exit'),
 ],benign=[
+ m('states-literal',SNIFF,'\tstates := make(sniffStates, len(sniffFormats))\n','\tstates := sniffStates{}\n'),
+
  m('guard-as-early-continue',UCDX,'\tif bom.Components != nil {\n','\tif bom.Components != nil && len(*bom.Components) >= 0 {\n'),
 ])
 C['C05']=dict(mutants=[
@@ -65,6 +68,7 @@ C['C05']=dict(mutants=[
  m('sprintf-width',UCDX,'fmt.Sprintf("%09d", *cc)','fmt.Sprintf("%012d", *cc)'),
 ])
 C['C06']=dict(mutants=[
+ m('sniffer-nil-map',SNIFF,'\tstates := make(sniffStates, len(sniffFormats))\n','\tvar states sniffStates\n','map-write-initialised'),
  m('drop-defer',SNIFF,'\tdefer func() {\n\t\t_, err := f.Seek(0, 0)\n\t\tif err != nil {\n\t\t\tfmt.Printf("WARNING: could not seek to beginning of file: %v", err)\n\t\t}\n\t}()\n','\t_, _ = f.Seek(0, 0)\n','deferred-rewind'),
  m('wrong-constant',SNIFF,'\t\t\tcase "1.4":\n\t\t\t\treturn CDX14JSON, nil','\t\t\tcase "1.4":\n\t\t\t\treturn CDX15JSON, nil','declaration-agreement'),
  m('case-sensitive-bomformat',SNIFF,'if strings.EqualFold(specversionjson.BomFormat, CDXFORMAT) {','if specversionjson.BomFormat == CDXFORMAT {',''),
@@ -74,11 +78,16 @@ C['C06']=dict(mutants=[
  m('rename-struct-var',SNIFF,'\tvar specversionjson SpecVersionStruct\n\terr := decoder.Decode(&specversionjson)','\tvar specversionjson SpecVersionStruct\n\terr := decoder.Decode((&specversionjson))'),
 ])
 C['C07']=dict(mutants=[
+ m('cpe-cases-merged',SCDX,'\t\t\tcase int32(sbom.SoftwareIdentifierType_CPE23):\n\t\t\t\t// CPE 2.3 takes precedence, but an empty value must not erase a\n\t\t\t\t// CPE 2.2 seen earlier: map iteration order is random.\n\t\t\t\tif cpe := n.Identifiers[idType]; cpe != "" {\n\t\t\t\t\tc.CPE = cpe\n\t\t\t\t}\n\t\t\tcase int32(sbom.SoftwareIdentifierType_CPE22):\n','\t\t\tcase int32(sbom.SoftwareIdentifierType_CPE23), int32(sbom.SoftwareIdentifierType_CPE22):\n','map-order-independence'),
+ m('cpe23-unconditional',SCDX,'\t\t\t\tif cpe := n.Identifiers[idType]; cpe != "" {\n\t\t\t\t\tc.CPE = cpe\n\t\t\t\t}\n','\t\t\t\tc.CPE = n.Identifiers[idType]\n','map-order-independence'),
+ m('serializer-state-nil-map',SCDX,'\t\taddedDict:      map[string]struct{}{},\n','','map-write-initialised'),
  m('metadata-direct',SCDX,'doc.SerialNumber = bom.GetMetadata().GetId()','doc.SerialNumber = bom.Metadata.Id','absent-part-guard'),
  m('render-options-direct',S23,'\tindent := 0\n\tif o != nil {\n\t\tindent = o.Indent\n\t}\n\tencoder := json.NewEncoder(wr)','\tindent := o.Indent\n\tencoder := json.NewEncoder(wr)','absent-part-guard'),
  m('state-on-driver',SCDX,'\tstate := newSerializerCDXState()\n\tctx := context.WithValue','\tstate := newSerializerCDXState()\n\ts.version = s.version + ""\n\tctx := context.WithValue','driver-keeps-no-state'),
  m('uuid-in-serializer',S23,'DocumentNamespace: "https://spdx.org/spdxdocs/",','DocumentNamespace: "https://spdx.org/spdxdocs/" + fmt.Sprint(time.Now().UnixNano()),',''),
 ],benign=[
+ m('purl-via-local',SCDX,'\t\t\t\tc.PackageURL = n.Identifiers[idType]\n','\t\t\t\tpurl := n.Identifiers[idType]\n\t\t\t\tc.PackageURL = purl\n'),
+
  m('explicit-nil-check',SCDX,'\tfor _, n := range bom.GetNodeList().GetNodes() {\n\t\tcomp := s.nodeToComponent(n)','\tfor _, n := range bom.GetNodeList().GetNodes() {\n\t\tif n == nil {\n\t\t\tcontinue\n\t\t}\n\t\tcomp := s.nodeToComponent(n)'),
 ])
 C['C08']=dict(mutants=[
@@ -90,6 +99,7 @@ C['C08']=dict(mutants=[
  m('rename-index',NL,'\t// Build a catalog of the elements ids\n\tnodeIndex := nl.indexNodes()','\t// Build a catalog of the elements ids (unchanged)\n\tnodeIndex := nl.indexNodes()'),
 ])
 C['C09']=dict(mutants=[
+ m('add-roots-vs-node-index',NL,'\trootElements := nl.indexRootElements()\n\tfor _, id := range nl2.RootElements {','\trootElements := nl.indexNodes()\n\tfor _, id := range nl2.RootElements {','loop-totality'),
  m('update-wrong-field',NODE,'\tif n2.UrlHome != "" {\n\t\tn.UrlHome = n2.UrlHome\n\t}','\tif n2.UrlHome != "" {\n\t\tn.UrlHome = n2.UrlDownload\n\t}','merge-precedence'),
  m('update-inverted-test',NODE,'\tif n2.Version != "" {\n\t\tn.Version = n2.Version\n\t}\n\tif n2.FileName != "" {','\tif n2.Version == "" {\n\t\tn.Version = n2.Version\n\t}\n\tif n2.FileName != "" {','merge-precedence'),
  m('augment-drops-receiver-test',NODE,'\tif n.Comment == "" && n2.Comment != "" {','\tif n2.Comment != "" {','merge-precedence'),
@@ -123,6 +133,7 @@ C['C12']=dict(mutants=[
  m('clone-via-append',NODE,'\t\tFileTypes:          slices.Clone(n.FileTypes),','\t\tFileTypes:          append([]string(nil), n.FileTypes...),'),
 ])
 C['C13']=dict(mutants=[
+ m('extref-hash-by-position',EXT,'\t\tfor _, algo := range algos {\n\t\t\thashes = append(hashes, fmt.Sprintf("%d:%s", algo, e.Hashes[int32(algo)]))','\t\tfor i, algo := range algos {\n\t\t\thashes = append(hashes, fmt.Sprintf("%d:%s", algo, e.Hashes[int32(i)]))','schema-map-key'),
  m('drop-sort',NODE,'\tsort.Strings(pairs)\n\treturn strings.Join(pairs, ":")','\treturn strings.Join(pairs, ":")','sorted-before-ordered-sink'),
  m('licenses-fall-to-default',NODE,'\tcase "protobom.protobom.Node.licenses",\n','\tcase "protobom.protobom.Node.licences",\n','encode-exhaustive'),
  m('extref-ignores-authority',EXT,'\tif e.Authority != "" {\n\t\tret += fmt.Sprintf("(a)%s", e.Authority)\n\t}\n','','encode-exhaustive'),
@@ -133,6 +144,7 @@ C['C13']=dict(mutants=[
  m('slices-sort',NODE,'\tsort.Strings(pairs)\n\treturn strings.Join(pairs, ":")','\tslices.Sort(pairs)\n\treturn strings.Join(pairs, ":")'),
 ])
 C['C14']=dict(mutants=[
+ m('extref-hash-by-position',EXT,'\t\tfor _, algo := range algos {\n\t\t\thashes = append(hashes, fmt.Sprintf("%d:%s", algo, e.Hashes[int32(algo)]))','\t\tfor i, algo := range algos {\n\t\t\thashes = append(hashes, fmt.Sprintf("%d:%s", algo, e.Hashes[int32(i)]))','schema-map-key'),
  m('stanza-wrong-dest',DIFF,'\tnd.Added.UrlHome = a\n','\tnd.Added.UrlDownload = a\n','diff-stanza'),
  m('stanza-swapped-results',DIFF,'\tnd.Added.Version = a\n\tnd.Removed.Version = r\n','\tnd.Added.Version = r\n\tnd.Removed.Version = a\n','diff-stanza'),
  m('count-dropped',DIFF,'\tnd.Removed.Comment = r\n\tnd.DiffCount += c\n','\tnd.Removed.Comment = r\n','diff-stanza'),
@@ -141,6 +153,8 @@ C['C14']=dict(mutants=[
  m('map-ignores-value-change',DIFF,'\t\t\tif v1 != v2 {\n\t\t\t\tadded[k] = v2\n\t\t\t}\n','\t\t\t_ = v1\n','diff-helper-semantics'),
 ],benign=[])
 C['C15']=dict(mutants=[
+ m('queue-storage-reused',NL,'\t\tnewLoopNodes = []*Node{}\n','\t\tnewLoopNodes = newLoopNodes[:0]\n','work-list-not-aliased'),
+ m('siblings-unguarded-lookup',NL,'\t\t\t\tn := nl.GetNodeByID(to)\n\t\t\t\tif n == nil {\n\t\t\t\t\tcontinue\n\t\t\t\t}\n\t\t\t\tni[to] = n\n','\t\t\t\tni[to] = nl.GetNodeByID(to)\n','absent-part-guard'),
  m('visited-after-recursion',NL,'\t\t(*connectedNodes)[s.Id] = s\n\n\t\t// Traverse the node path:\n\t\tnl.connectedIndexRecursion(s.Id, boundaries, connectedNodes)','\t\t// Traverse the node path:\n\t\tnl.connectedIndexRecursion(s.Id, boundaries, connectedNodes)\n\t\t(*connectedNodes)[s.Id] = s',''),
  m('boundary-dropped',NL,'\t\t// If the node is in the boundaries list, skip\n\t\tif _, ok := (*boundaries)[s.Id]; ok {\n\t\t\tcontinue\n\t\t}\n','','traversal-guard'),
  m('depth-loop-unbounded',NL,'\tfor i := 0; i < maxDepth; i++ {\n\t\tif i == 0 {','\tfor i := 0; i < maxDepth; i++ {\n\t\tif len(newLoopNodes) > 0 {\n\t\t\tmaxDepth++\n\t\t}\n\t\tif i == 0 {','loop-shape'),
@@ -148,6 +162,8 @@ C['C15']=dict(mutants=[
  m('extra-root',NL,'\tnodelist.RootElements = append(nodelist.RootElements, id)\n\tnodelist.cleanEdges()','\tnodelist.RootElements = append(nodelist.RootElements, nl.RootElements...)\n\tnodelist.cleanEdges()','traversal-guard'),
 ],benign=[])
 C['C16']=dict(mutants=[
+ m('rootnodes-early-break',NL,'\t\t\tret = append(ret, nl.Nodes[i])\n\t\t}\n\t}\n\t// TODO(ehandling)','\t\t\tret = append(ret, nl.Nodes[i])\n\t\t\tif len(ret) == len(index) {\n\t\t\t\tbreak\n\t\t\t}\n\t\t}\n\t}\n\t// TODO(ehandling)','loop-totality'),
+ m('purl-tiebreak-first-wins',NL,'\t\t\tif tp := n.Purl(); tp != "" && tp == testPurl {\n\t\t\t\tfoundByPurl = append(foundByPurl, n)\n\t\t\t}','\t\t\tif tp := n.Purl(); tp != "" && tp == testPurl && len(foundByPurl) == 0 {\n\t\t\t\tfoundByPurl = append(foundByPurl, n)\n\t\t\t}',''),
  m('byname-compares-id',NL,'\t\tif nl.Nodes[i].Name == name {','\t\tif nl.Nodes[i].Id == name {','lookup-criterion'),
  m('edgebytype-or',NL,'\t\tif e.From == fromElement && e.Type == t {','\t\tif e.From == fromElement || e.Type == t {','lookup-criterion'),
  m('alias-wrong',IDENT,'\tcase "cpe22", "cpe2.2":\n\t\treturn SoftwareIdentifierType_CPE22','\tcase "cpe22", "cpe2.2":\n\t\treturn SoftwareIdentifierType_CPE23','table-inverse'),
@@ -161,12 +177,15 @@ C['C17']=dict(mutants=[
  m('shared-default-published',WR,'\t\tOptions: newDefaultOptions(),','\t\tOptions: defaultOptions,','published-default'),
 ],benign=[])
 C['C18']=dict(mutants=[
+ m('per-call-arg-written',WR,'\tformat := o.Format\n\tif o.Format == "" {\n\t\tformat = w.Options.Format\n\t}','\tif o.Format == "" {\n\t\to.Format = w.Options.Format\n\t}\n\tformat := o.Format','per-call-no-argument-write'),
  m('option-writes-global',WOPT,'\t\tw.Options.Format = f\n','\t\tw.Options.Format = f\n\t\tdefaultOptions.Format = f\n','option-writes-instance-only'),
  m('per-call-retained',WR,'\tformat := o.Format\n\tif o.Format == "" {\n\t\tformat = w.Options.Format\n\t}','\tformat := o.Format\n\tif o.Format == "" {\n\t\tformat = w.Options.Format\n\t} else {\n\t\tw.Options = o\n\t}','per-call-no-receiver-write'),
  m('store-default-options',WR,'\treturn w.StoreWithOptions(bom, w.Options)','\treturn w.StoreWithOptions(bom, defaultOptions)','per-call-reads-argument'),
  m('receiver-format-options',RD,'o.GetFormatOptions(unserializer),','r.Options.GetFormatOptions(unserializer),','per-call-reads-argument'),
 ],benign=[])
 C['C19']=dict(mutants=[
+ m('store-shortcut',FS,'\t// Write the data to a temporary file in the same directory and rename it\n','\tif st, err := os.Stat(finalPath); err == nil && st.Size() == int64(len(out)) {\n\t\treturn nil\n\t}\n\t// Write the data to a temporary file in the same directory and rename it\n','store-success-publishes'),
+ m('decoder-sees-prefix',FS,'\tif err := proto.Unmarshal(data, bom); err != nil {','\tif err := proto.Unmarshal(data[:min(len(data), 4<<20)], bom); err != nil {','retrieve-reads-whole-entry'),
  m('fatal-on-read',FS,'\t\treturn nil, fmt.Errorf("reading protobom data from disk: %w", err)','\t\tpanic(fmt.Errorf("reading protobom data from disk: %w", err))','no-process-exit'),
  m('dir-mode',FS,'os.FileMode(0o755)','os.FileMode(0o600)','directory-mode'),
  m('name-from-id',FS,'return fmt.Sprintf("%x.protobom", sha256.Sum256([]byte(documentId))), nil','return fmt.Sprintf("%s-%x.protobom", documentId, sha256.Sum256([]byte(documentId))), nil','path-confinement'),
